@@ -4,6 +4,7 @@
 //!   vharness shard <Cxx> --tier T --seed N --shard i --of n    one shard (prints a JSON result)
 //!   vharness replay <Cxx> <file>                                re-run one recorded case
 
+mod art;
 mod bisim;
 mod cmodel;
 mod codec;
@@ -14,6 +15,7 @@ mod mon;
 mod prog;
 mod reg;
 mod regeq;
+mod rt;
 mod sdesc;
 mod settingsgen;
 mod sim;
@@ -118,6 +120,31 @@ fn main() {
                     }
                 }
                 Err(e) => println!("generation failed: {e}"),
+            }
+        }
+        "art-debug" => {
+            // development aid: compile the module of a replay file and print rustc's output
+            let body: serde_json::Value =
+                serde_json::from_str(&std::fs::read_to_string(&args[2]).unwrap()).unwrap();
+            let r = reg::from_json(&body["replay"]["registry"]);
+            let d: sdesc::SDesc = serde_json::from_value(body["replay"]["sdesc"].clone()).unwrap();
+            let settings = d.build();
+            let gen::GenOutcome::Ok(ts) = gen::generate(&r, &settings).outcome else { panic!("generation failed") };
+            let c = rt::ArtCase { name: "dbg".into(), module: ts.to_string(), types: vec![], extra: String::new() };
+            let b = rt::build(&[c], "dbg", 0, false);
+            println!("built={} failed={:?} other={:?}", b.exe.is_some(), b.failed, b.other_errors);
+            let out = std::process::Command::new("cargo").args(["build", "--offline"]).current_dir(&b.dir)
+                .env("CARGO_TARGET_DIR", rt::target_dir(0)).env("RUSTFLAGS", "-Awarnings").output().unwrap();
+            println!("{}", String::from_utf8_lossy(&out.stderr));
+            rt::cleanup(&b);
+        }
+        "warm" => {
+            // setup aid: build the artifact dependencies once per target-dir slot
+            for slot in 0..4usize {
+                let c = rt::ArtCase { name: "warm".into(), module: "pub mod root { }".into(), types: vec![], extra: String::new() };
+                let b = rt::build(&[c], &format!("warm{slot}"), slot, false);
+                println!("slot {slot}: built={} in {:.1}s {}", b.exe.is_some(), b.build_secs, b.other_errors.join(" | "));
+                rt::cleanup(&b);
             }
         }
         "list" => {
